@@ -39,7 +39,7 @@ def _body_at(spec: dict, path: tuple) -> list:
 
 
 class _Shrinker:
-    def __init__(self, spec, clause, execute_many, budget, batch, log):
+    def __init__(self, spec, clause, execute_many, budget, batch, log, screen=None):
         self.best = copy.deepcopy(spec)
         self.best_res: dict | None = None
         self.clause = clause
@@ -50,13 +50,22 @@ class _Shrinker:
         self.log = log
         self.by_switches = True
         self.round_mode = True
+        self.screen = screen
+        self.screened = 0
 
     # ------------------------------------------------------------------ evaluation
     def same(self, res: dict) -> bool:
         return res['status'] == 'violation' and res['violation']['clause'] == self.clause
 
     def first_success(self, cands: list[tuple[str, dict]]) -> int | None:
-        """Evaluates candidates (in batches); adopts and returns the index of the first that still fails."""
+        """Adopts and returns the index of the first candidate (in generation order) that still fails.
+
+        With a `screen` function the candidates are first tried *in-process* in sacrificial worker
+        processes (cheap: milliseconds each, and for thread-world specs a few alternative scheduler
+        seeds are tried when the recorded schedule no longer fails); only candidates that appeared to
+        fail are then confirmed as the first run of a brand-new process, which is what counts.
+        Without it every candidate is executed in a brand-new process.
+        """
         valid: list[tuple[int, str, dict]] = []
         for i, (what, cand) in enumerate(cands):
             try:
@@ -64,6 +73,10 @@ class _Shrinker:
             except ValueError:
                 continue
             valid.append((i, what, cand))
+        if self.screen is not None and valid:
+            hits = self.screen([c for _, _, c in valid], self.clause)
+            self.screened += len(valid)
+            valid = [(i, what, hit) for (i, what, _), hit in zip(valid, hits) if hit is not None]
         pos = 0
         while pos < len(valid) and self.used < self.budget:
             group = valid[pos : pos + min(self.batch, self.budget - self.used)]
@@ -266,8 +279,9 @@ def minimise(
     budget: int = 400,
     batch: int = 16,
     log: Callable[[str], None] | None = None,
+    screen: Callable[[list[dict], str], list] | None = None,
 ) -> tuple[dict, dict | None, int]:
     """Returns (minimal spec, its result or None if nothing smaller failed, executions used)."""
-    sh = _Shrinker(spec, clause, execute_many, budget, batch, log)
+    sh = _Shrinker(spec, clause, execute_many, budget, batch, log, screen)
     sh.run()
     return sh.best, sh.best_res, sh.used
